@@ -795,6 +795,86 @@ Proof.
     rewrite E. auto.
 Qed.
 
+(* ---------- calls left without a next request: only for three named reasons ---------- *)
+(* one step on: whatever payload is built from the state after an iteration that processed all its calls is the
+   answer to exactly these calls (the same shape `answers` demands of the next request) *)
+Lemma step_answers s req s1 calls xs cnt ne prev req2 s1' cs2 xs2 :
+  init_inv s -> build g prompt s = Some (req, s1) -> calls <> [] ->
+  run_calls (enforce (g_choice g)) tool (s_count s1) (s_nexec s1) calls = (xs, cnt, ne, false) ->
+  build g prompt (next_state s s1 prev calls xs cnt ne) = Some (req2, s1') ->
+  answers (mkiter req calls xs) (mkiter req2 cs2 xs2).
+Proof.
+  intros Hinv Hb Hne Hr Hb2.
+  pose proof (build_init_none _ _ _ Hinv Hb) as Hin.
+  pose proof (run_calls_spec _ _ _ _ _ _ _ _ _ Hr) as (_ & _ & _ & _ & _ & R6 & _).
+  specialize (R6 eq_refl).
+  unfold answers. cbn [it_done it_calls it_req mkiter].
+  split; [exact R6|]. split; [exact Hne|]. split.
+  - intros Hst.
+    eapply build_stateful in Hb2; [|exact Hst|cbn [s_follow next_state]; reflexivity].
+    rewrite Hst in Hb2. exact Hb2.
+  - intros Hst.
+    pose proof (build_stateless _ _ _ Hst Hinv Hb) as (_ & _ & H3 & H4 & _).
+    pose proof (build_stateless _ _ _ Hst (next_state_inv s s1 prev calls xs cnt ne Hin) Hb2) as (_ & K2 & _ & _ & K5).
+    cbn [s_follow next_state] in K5. destruct (K5 ltac:(discriminate)) as [K6 K7].
+    cbn [s_hist next_state] in K7. rewrite Hst in K7.
+    split; [exact K2|]. split; [exact K6|]. split.
+    + rewrite K7. rewrite !filter_app, filter_is_out_fmsg, filter_is_out_calls, filter_is_out_outputs, H3.
+      rewrite !app_nil_r. reflexivity.
+    + intros Hfx. rewrite K7, (H4 Hfx). rewrite <- !app_assoc. reflexivity.
+Qed.
+
+Lemma looprun_no_iters script s r :
+  LoopRun script s r -> res_iters r = [] ->
+  r = mkres [] None MaxToolCalls \/
+  (build g prompt s = None /\ r = mkres [] None ProviderError) \/
+  (exists req s1, build g prompt s = Some (req, s1) /\ r = mkres [] (Some req) InvalidRequest).
+Proof.
+  intros H. inversion H; subst; cbn [res_iters mkres]; intros E; try discriminate; eauto 6.
+Qed.
+
+(* why the calls of a run's LAST iteration got no next request *)
+Definition unanswered_why (r : result) (it : iter) : Prop :=
+  (res_reason r = ProviderError /\ res_rejected r = None /\ g_stateless g = false /\ it_done it = []) \/
+  (res_reason r = MaxToolCalls /\ res_rejected r = None) \/
+  (res_reason r = InvalidRequest /\ exists q, res_rejected r = Some q /\ answers it (mkiter q [] [])).
+
+Lemma run_last_unanswered script s r :
+  LoopRun script s r -> init_inv s ->
+  forall pre it, res_iters r = pre ++ [it] -> it_calls it <> [] -> unanswered_why r it.
+Proof.
+  induction 1 as [| | |script s req s1 calls xs rsn Hc Hb Hv Hl|rd rest s req s1 calls xs cnt ne prev r Hc Hb Hv Hf Hd Hne Hp Hpn Hr Hrun IH];
+    intros Hinv pre it E Hcalls; cbn [res_iters mkres] in E.
+  - destruct pre; discriminate.
+  - destruct pre; discriminate.
+  - destruct pre; discriminate.
+  - destruct pre as [|p pre]; [|destruct pre; discriminate].
+    cbn [app] in E. inversion E; subst it. cbn [it_calls mkiter] in Hcalls.
+    unfold unanswered_why. cbn [res_reason res_rejected mkres it_done mkiter].
+    inversion Hl; subst; try (exfalso; apply Hcalls; reflexivity).
+    + left. repeat split; auto.
+    + right. left. split; reflexivity.
+  - pose proof (build_init_none _ _ _ Hinv Hb) as Hin.
+    destruct (res_iters r) as [|i0 ir] eqn:Er.
+    + destruct pre as [|p pre]; [|destruct pre; discriminate].
+      cbn [app] in E. inversion E; subst it. clear E.
+      unfold unanswered_why. cbn [res_reason res_rejected mkres].
+      destruct (looprun_no_iters _ _ _ Hrun Er) as [Hm|[(Hn & Hm)|(req2 & s2 & Hb2 & Hm)]]; rewrite Hm;
+        cbn [res_reason res_rejected mkres].
+      * right. left. split; reflexivity.
+      * exfalso. unfold build in Hn. cbn [s_follow next_state] in Hn.
+        destruct (g_stateless g) eqn:Es; [discriminate|]. cbn [s_prev] in Hn.
+        destruct prev as [pv|]; [discriminate|]. apply Hpn; reflexivity.
+      * right. right. split; [reflexivity|]. exists req2. split; [reflexivity|].
+        eapply step_answers; eauto.
+    + destruct pre as [|p pre].
+      { cbn [app] in E. inversion E. }
+      cbn [app] in E. inversion E as [[E1 E2]].
+      assert (Hw : unanswered_why r it).
+      { eapply IH; [apply next_state_inv; exact Hin | exact E2 | exact Hcalls]. }
+      unfold unanswered_why in *. cbn [res_reason res_rejected mkres]. exact Hw.
+Qed.
+
 End Run.
 
 (* ---------------------------------------------------------------- statements about `run` *)
@@ -964,6 +1044,98 @@ Proof.
   - rewrite Hrd in Hrd'. inversion Hrd'; subst rd'. rewrite Hc, Hev. apply emitted_call_drained; exact Hw.
 Qed.
 
+(* calls stay unanswered only for three named reasons; a refused follow-up was exactly their answer *)
+Lemma unanswered_only_when g valid tool prompt init script pre it :
+  res_iters (run g valid tool prompt init script) = pre ++ [it] -> it_calls it <> [] ->
+  (res_reason (run g valid tool prompt init script) = ProviderError /\
+   res_rejected (run g valid tool prompt init script) = None /\ g_stateless g = false /\ it_done it = []) \/
+  (res_reason (run g valid tool prompt init script) = MaxToolCalls /\
+   res_rejected (run g valid tool prompt init script) = None /\
+   nlen (processed (run g valid tool prompt init script)) = MAX_TOOL_CALLS) \/
+  (res_reason (run g valid tool prompt init script) = InvalidRequest /\
+   exists q, res_rejected (run g valid tool prompt init script) = Some q /\
+     map x_call (it_done it) = it_calls it /\
+     (g_stateless g = false ->
+        q_input q = InItems (outputs_for false (it_done it) ++ fmsg g) /\ q_prev q <> None /\ q_kind q = 3) /\
+     (g_stateless g = true ->
+        q_prev q = None /\ q_kind q = 4 /\
+        filter is_out (items_of q) = filter is_out (items_of (it_req it)) ++ outputs_for true (it_done it) /\
+        (g_fixed g = true ->
+           items_of q = items_of (it_req it) ++ map call_item (it_calls it) ++ outputs_for true (it_done it) ++ fmsg g))).
+Proof.
+  intros E Hc.
+  pose proof (run_last_unanswered _ _ _ _ _ _ _ (run_is_looprun g valid tool prompt init script)
+                (lst0_inv g prompt init) _ _ E Hc) as [H|[H|H]].
+  - left. exact H.
+  - right. left. destruct H as [H1 H2]. repeat split; auto.
+    apply (bound g valid tool prompt init script). exact H1.
+  - right. right. destruct H as (H1 & q & H2 & A1 & _ & A3 & A4). split; [exact H1|].
+    exists q. cbn [it_req mkiter] in A3, A4. repeat split; auto; try (apply A3; assumption); try (apply A4; assumption).
+Qed.
+
+(* ---- across responses: what a request answers in all ---- *)
+Definition init_items (init : option (list item)) : list item := match init with Some l => l | None => [] end.
+
+Lemma first_request_out_ids g valid tool prompt init script it rest :
+  res_iters (run g valid tool prompt init script) = it :: rest ->
+  out_ids (items_of (it_req it)) = out_ids (init_items init).
+Proof.
+  intros E.
+  destruct (first_request _ _ _ _ _ _ _ _ _ (run_is_looprun g valid tool prompt init script) E) as (s1 & Hb).
+  unfold build, lst0 in Hb. cbn [s_follow s_init s_hist] in Hb.
+  destruct init as [l|].
+  - injection Hb as Hq Hs. rewrite <- Hq. reflexivity.
+  - destruct (g_stateless g); injection Hb as Hq Hs; rewrite <- Hq; reflexivity.
+Qed.
+
+(* stateless history: request k answers, in order, the calls of ALL earlier responses, response by response
+   (after whatever outputs the initial context already held); stateful: only those of the response before it
+   (answered_by_call_id) *)
+Lemma answers_accumulate g valid tool prompt init script : forall pre it post,
+  g_stateless g = true ->
+  res_iters (run g valid tool prompt init script) = pre ++ it :: post ->
+  out_ids (items_of (it_req it)) = out_ids (init_items init) ++ flat_map (fun i => map c_id (it_calls i)) pre.
+Proof.
+  intros pre. induction pre as [|p pre IH] using rev_ind; intros it post Hst E.
+  - cbn [app flat_map] in E |- *. rewrite app_nil_r. eapply first_request_out_ids; eauto.
+  - rewrite <- app_assoc in E. cbn [app] in E.
+    destruct (answered_by_call_id _ _ _ _ _ _ _ _ _ _ E) as (_ & A2 & _).
+    rewrite (A2 Hst), (IH p (it :: post) Hst E), flat_map_app. cbn [flat_map]. rewrite app_nil_r, app_assoc.
+    reflexivity.
+Qed.
+
+Definition str_eq_dec : forall a b : str, {a = b} + {a <> b} := list_eq_dec N.eq_dec.
+Definition completes (cid : str) (it : iter) : bool := existsb (str_eqb cid) (map c_id (it_calls it)).
+
+Lemma count_occ_nodup (l : list str) x :
+  NoDup l -> count_occ str_eq_dec l x = if existsb (str_eqb x) l then 1%nat else 0%nat.
+Proof.
+  induction 1 as [|y l Hy Hn IH]; cbn [count_occ existsb]; [reflexivity|].
+  destruct (str_eq_dec y x) as [->|Hne].
+  - rewrite str_eqb_refl. cbn [orb].
+    assert (Hz : count_occ str_eq_dec l x = 0%nat) by (apply count_occ_not_In; exact Hy).
+    rewrite Hz. reflexivity.
+  - assert (Hf : str_eqb x y = false) by (apply str_eqb_neq; congruence).
+    rewrite Hf. cbn [orb]. exact IH.
+Qed.
+
+(* the same call id in several responses: in request k it is answered once per earlier response that completed it
+   — the same id completed by two responses is two calls, each answered once *)
+Lemma answered_once_per_response g valid tool prompt init script pre it post cid :
+  g_stateless g = true -> g_fixed g = FIXED ->
+  res_iters (run g valid tool prompt init script) = pre ++ it :: post ->
+  count_occ str_eq_dec (out_ids (items_of (it_req it))) cid
+  = (count_occ str_eq_dec (out_ids (init_items init)) cid + length (filter (completes cid) pre))%nat.
+Proof.
+  intros Hst Hfx E. rewrite (answers_accumulate _ _ _ _ _ _ _ _ _ Hst E), count_occ_app. f_equal.
+  assert (Hin : forall i, In i pre -> In i (res_iters (run g valid tool prompt init script))).
+  { intros i Hi. rewrite E. apply in_or_app. left. exact Hi. }
+  clear E. induction pre as [|p pre IH]; cbn [flat_map filter length]; [reflexivity|].
+  rewrite count_occ_app, IH by (intros i Hi; apply Hin; right; exact Hi).
+  rewrite count_occ_nodup by (eapply call_ids_distinct; [exact Hfx | apply Hin; left; reflexivity]).
+  unfold completes at 2. destruct (existsb (str_eqb cid) (map c_id (it_calls p))); cbn [length]; lia.
+Qed.
+
 (* ---------------------------------------------------------------- witnesses *)
 Definition w_str (x : String.string) : str := lit x.
 Definition w_done (oi : N) (id cid name args : String.string) : json :=
@@ -1040,3 +1212,26 @@ Proof.
   unfold wf_done, w_done. eexists _, _, (lit "write"). split; [reflexivity|].
   repeat split; try reflexivity. discriminate.
 Qed.
+
+(* a refused follow-up: the only request the validator lets through is the first one *)
+Definition ex_refused_run : result :=
+  run ex_cfg (fun i _ => i =? 0) (fun _ _ => lit "o") (lit "p") None ex_script.
+Lemma ex_refused_shape :
+  length (res_iters ex_refused_run) = 1%nat /\ res_reason ex_refused_run = InvalidRequest /\
+  map (fun it => map c_id (it_calls it)) (res_iters ex_refused_run) = [[lit "c2"; lit "c1"]] /\
+  match res_rejected ex_refused_run with Some q => out_ids (items_of q) = [lit "c2"; lit "c1"] | None => False end.
+Proof. vm_compute. repeat split. Qed.
+
+(* the same call id completed by two responses, stateless history: the third request answers it twice *)
+Definition ex_same_id_cfg : cfg :=
+  {| g_stateless := true; g_choice := JStr (lit "auto"); g_followup := None; g_fixed := FIXED |}.
+Definition ex_same_id_script : list round :=
+  [ {| r_fail := false; r_events := [w_done 0 "f1" "c1" "ls" "{}"] |};
+    {| r_fail := false; r_events := [w_done 0 "f2" "c1" "ls" "{}"] |};
+    {| r_fail := false; r_events := [] |} ].
+Definition ex_same_id_run : result :=
+  run ex_same_id_cfg (fun _ _ => true) (fun _ _ => lit "o") (lit "p") None ex_same_id_script.
+Lemma ex_same_id_shape :
+  res_reason ex_same_id_run = Completed /\
+  map (fun it => out_ids (items_of (it_req it))) (res_iters ex_same_id_run) = [[]; [lit "c1"]; [lit "c1"; lit "c1"]].
+Proof. vm_compute. repeat split. Qed.
